@@ -69,6 +69,8 @@ type l1world struct {
 	ops         *tw
 	nops        int
 	lastDeleted int
+	faulty      bool
+	fired       int
 	emptied     map[int]bool
 }
 
@@ -93,6 +95,16 @@ func (w *l1world) cfg() kv.Config {
 // mutation log of the op just executed: tokens in issue order; returns retire order too
 func (w *l1world) muts(out *tw, opn, cls string) (getOrder, retireOrder []string) {
 	log := w.s3.takeLog()
+	if os.Getenv("VERIF_TRACE") != "" {
+		for _, r := range log {
+			cl, name := classify(r.key)
+			if len(name) > 8 {
+				name = name[:8]
+			}
+			fmt.Fprintf(os.Stderr, "  %s %s %s ok=%v\n", r.kind, cl, name, r.ok)
+		}
+		fmt.Fprintln(os.Stderr, "  --")
+	}
 	var toks []string
 	seen := map[string]bool{}
 	for _, r := range log {
@@ -225,6 +237,75 @@ type kop struct {
 	key           sval
 	row           mrow
 	pval          int64
+	faults        []faultSpec
+}
+
+// a fault aimed at the occ-th request of one kind on one prefix (optionally one object)
+type faultSpec struct {
+	kind  string // L G P D
+	class string // c m n
+	name  string // canonical (#k / %k) or "*"
+	occ   int
+	out   int // fErr / fGone
+}
+
+var kindNum = map[string]int{"L": 0, "G": 1, "P": 2, "D": 3}
+
+func (w *l1world) installFaults(fs []faultSpec, o *tw) {
+	if len(fs) == 0 {
+		w.s3.plan = nil
+		return
+	}
+	counts := make([]int, len(fs))
+	w.s3.plan = func(idx int, kind, key string) int {
+		cl, raw := classify(key)
+		if kind == "L" {
+			// the key of a LIST is its prefix
+			switch {
+			case strings.HasSuffix(key, "/root/current/"):
+				cl = "c"
+			case strings.HasSuffix(key, "/root/merged/"):
+				cl = "m"
+			case strings.HasSuffix(key, "/node/"):
+				cl = "n"
+			}
+		}
+		res := fOK
+		for i, f := range fs {
+			if f.kind != kind || f.class != cl {
+				continue
+			}
+			if f.name != "*" {
+				var canon string
+				if cl == "n" {
+					canon = w.nn.nm(raw)
+				} else {
+					canon = w.nm.nm(raw)
+				}
+				if canon != f.name {
+					continue
+				}
+			}
+			if counts[i] == f.occ && res == fOK {
+				res = f.out
+				w.fired++
+			}
+			counts[i]++
+		}
+		return res
+	}
+	for _, f := range fs {
+		o.s("F")
+		o.i(kindNum[f.kind])
+		o.s(f.class)
+		o.s(f.name)
+		o.i(f.occ)
+		if f.out == fGone {
+			o.s("g")
+		} else {
+			o.s("e")
+		}
+	}
 }
 
 func okerr(out *tw, err error) {
@@ -255,6 +336,11 @@ func (w *l1world) exec(op *kop, hstats map[string]int) (known string, ok bool) {
 	if needsH && db == nil {
 		return "", false
 	}
+	if os.Getenv("VERIF_TRACE") != "" {
+		fmt.Fprintf(os.Stderr, "OP %s h=%d\n", op.kind, op.h)
+	}
+	w.installFaults(op.faults, &o)
+	defer func() { w.s3.plan = nil }()
 	switch op.kind {
 	case "open":
 		opts := kv.OpenOptions{ReadOnly: op.ro}
@@ -516,7 +602,7 @@ func (w *l1world) finish() (string, string) {
 	w.in.i(w.bf)
 	w.in.i(w.nops)
 	w.in.sb.WriteString(w.ops.String())
-	if w.mode == "cb" {
+	if w.mode == "cb" && !strings.Contains(w.ops.String(), " F ") {
 		w.out.s(";")
 		w.out.i(w.conflicts)
 	}
@@ -524,12 +610,16 @@ func (w *l1world) finish() (string, string) {
 }
 
 // generate-and-run one history
-func runL1History(g *gen, mode string, nops int, hstats map[string]int) (string, string) {
+func runL1History(g *gen, mode string, nops int, hstats map[string]int, faulty bool) (string, string) {
 	bf := []int{4096, 4096, 2, 3}[g.r.Intn(4)]
 	if mode == "rows" {
 		bf = 4096 // the one-node model is exact only while the tree has a single node
 	}
 	w := newL1World(mode, bf)
+	w.faulty = faulty
+	if faulty {
+		w.bf, bf = 4096, 4096 // request-exact fault plans need single-node trees
+	}
 	var keys []sval
 	nk := 2 + g.r.Intn(4)
 	for i := 0; i < nk; i++ {
@@ -609,7 +699,29 @@ func runL1History(g *gen, mode string, nops int, hstats map[string]int) (string,
 				op.kind, op.h2 = "dump", 0
 			}
 		}
+		if w.faulty && g.r.Intn(3) == 0 {
+			var menu []faultSpec
+			switch op.kind {
+			case "open":
+				menu = []faultSpec{{"L", "c", "*", 0, fErr}, {"G", "c", "*", g.r.Intn(3), fErr}, {"G", "c", "*", g.r.Intn(3), fGone},
+					{"G", "n", "*", g.r.Intn(5), fErr}, {"G", "n", "*", g.r.Intn(5), fGone}, {"P", "n", "*", 0, fErr}, {"P", "c", "*", 0, fErr},
+					{"P", "m", "*", g.r.Intn(2), fErr}, {"D", "c", "*", g.r.Intn(2), fErr}, {"G", "m", "*", g.r.Intn(2), fErr}}
+			case "commit":
+				menu = []faultSpec{{"P", "n", "*", 0, fErr}, {"P", "c", "*", 0, fErr}, {"P", "m", "*", g.r.Intn(2), fErr}, {"D", "c", "*", g.r.Intn(2), fErr}}
+			case "delhist":
+				menu = []faultSpec{{"G", "m", "*", g.r.Intn(3), fErr}, {"G", "c", "*", g.r.Intn(2), fErr}, {"G", "n", "*", g.r.Intn(3), fErr},
+					{"D", "n", "*", g.r.Intn(2), fErr}, {"D", "m", "*", g.r.Intn(2), fErr}, {"D", "c", "*", 0, fErr}}
+			}
+			if len(menu) > 0 {
+				op.faults = []faultSpec{menu[g.r.Intn(len(menu))]}
+				hstats["fault_"+op.kind+"_"+op.faults[0].kind+op.faults[0].class]++
+			}
+		}
+		firedBefore := w.fired
 		kn, ok := w.exec(op, hstats)
+		if w.fired > firedBefore {
+			hstats["fault_fired_"+op.kind]++
+		}
 		if kn != "" {
 			known = append(known, kn)
 		}
@@ -629,7 +741,7 @@ func runL1History(g *gen, mode string, nops int, hstats map[string]int) (string,
 	return w.finish()
 }
 
-func runL1(seed int64, n int, dir string, modes []string) error {
+func runL1(seed int64, n int, dir string, modes []string, faulty bool) error {
 	g := &gen{rand.New(rand.NewSource(seed))}
 	cf, err := os.Create(dir + "/cases.txt")
 	if err != nil {
@@ -648,7 +760,7 @@ func runL1(seed int64, n int, dir string, modes []string) error {
 	for c := 1; c <= n; c++ {
 		mode := modes[g.r.Intn(len(modes))]
 		nops := 6 + g.r.Intn(30)
-		in, out := runL1History(g, mode, nops, stats)
+		in, out := runL1History(g, mode, nops, stats, faulty)
 		fmt.Fprintf(cw, "%d kvhist%s\n", c, in)
 		fmt.Fprintf(iw, "%d%s\n", c, out)
 		stats["hist_"+mode]++
